@@ -99,7 +99,29 @@ type c16PodS struct {
 	ready, ann, term bool
 	phase            int // 0 Running, 1 Pending, 2 Succeeded, 3 Failed
 }
-type c16JobS struct{ id, pod, ns int }
+// pod: the pod named by PodRef.Namespace/Name (0 = nil PodRef; an id that no pod has = a name that resolves to nothing),
+// uid: the pod whose UID PodRef.UID is (0 = empty UID; an id that no pod has = a stale UID);
+// nameless: PodRef carries ONLY the UID (namespace and name empty; pod is then a ghost id, ns 0)
+type c16JobS struct {
+	id, pod, ns, uid int
+	nameless         bool
+}
+
+// PodRef shapes of directly created jobs (a job created after arbitrator.Filter always has shape 0)
+const (
+	c16RefFull     = iota // UID + namespace/name of the same pod
+	c16RefNameOnly        // namespace/name, no UID (hand-written / external job)
+	c16RefUIDOnly         // UID, no namespace/name
+	c16RefStaleUID        // namespace/name of the pod, UID of an earlier incarnation
+	c16RefCross           // UID of one pod, namespace/name of another (makes WF false)
+)
+
+func c16UID(uid int) types.UID {
+	if uid == 0 {
+		return ""
+	}
+	return types.UID(fmt.Sprintf("u%d", uid))
+}
 
 // per-workload limit forms and gate switches of MigrationControllerArgs
 type c16Cfg struct {
@@ -312,17 +334,20 @@ func (w *c16World) mkPod(p *c16PodS) *corev1.Pod {
 	return pod
 }
 
-func (w *c16World) mkJob(id, pod, ns int) *v1alpha1.PodMigrationJob {
-	j := &v1alpha1.PodMigrationJob{ObjectMeta: metav1.ObjectMeta{Name: c16JobName(id), UID: types.UID(fmt.Sprintf("ju%d", id)),
-		CreationTimestamp: metav1.Time{Time: time.Unix(1700000000+int64(id), 0)}}}
-	if pod > 0 {
-		j.Spec.PodRef = &corev1.ObjectReference{Namespace: c16Ns(ns), Name: c16PodName(pod), UID: types.UID(fmt.Sprintf("u%d", pod))}
+func (w *c16World) mkJob(s *c16JobS) *v1alpha1.PodMigrationJob {
+	j := &v1alpha1.PodMigrationJob{ObjectMeta: metav1.ObjectMeta{Name: c16JobName(s.id), UID: types.UID(fmt.Sprintf("ju%d", s.id)),
+		CreationTimestamp: metav1.Time{Time: time.Unix(1700000000+int64(s.id), 0)}}}
+	if s.pod > 0 {
+		j.Spec.PodRef = &corev1.ObjectReference{UID: c16UID(s.uid)}
+		if !s.nameless {
+			j.Spec.PodRef.Namespace, j.Spec.PodRef.Name = c16Ns(s.ns), c16PodName(s.pod)
+		}
 	}
 	return j
 }
 
 type c16JobView struct {
-	id, pod, ns, phase       int
+	id, pod, ns, uid, phase  int
 	ann, arb, waiting, stale bool
 }
 
@@ -340,7 +365,7 @@ func (w *c16World) view() []c16JobView {
 		w.a.mu.Lock()
 		_, waiting := w.a.waitingCollection[j.UID]
 		w.a.mu.Unlock()
-		out = append(out, c16JobView{id: id, pod: s.pod, ns: s.ns, phase: c16PhaseCode(j.Status.Phase),
+		out = append(out, c16JobView{id: id, pod: s.pod, ns: s.ns, uid: s.uid, phase: c16PhaseCode(j.Status.Phase),
 			ann: j.Annotations[AnnotationPassedArbitration] == "true", arb: w.a.filter.checkJobPassedArbitration(j.UID), waiting: waiting,
 			stale: w.stale[id]})
 	}
@@ -453,7 +478,10 @@ type c16Counts struct {
 
 func (w *c16World) counts(v []c16JobView, live func(c16JobView) bool, only func(c16JobView) bool, unavailable map[int]bool) c16Counts {
 	c := c16Counts{node: map[int]int{}, ns: map[int]int{}, migr: map[[2]int]int{}, unav: map[[2]int]int{}}
-	podLive := map[int]bool{}
+	// podLive: the job's PodRef names the pod by namespace/name (how the job is resolved to the pod it will migrate: the
+	// per-namespace and per-workload counts); podRef: the pod has a live job by the documented rule of the duplicate check,
+	// PodRef.UID == pod UID OR PodRef namespace/name == the pod's (the per-node count is a count of such pods)
+	podLive, podRef := map[int]bool{}, map[int]bool{}
 	for _, j := range v {
 		if !live(j) || j.pod == 0 || (only != nil && !only(j)) {
 			continue
@@ -461,9 +489,11 @@ func (w *c16World) counts(v []c16JobView, live func(c16JobView) bool, only func(
 		c.global++
 		c.ns[j.ns]++
 		podLive[j.pod] = true
+		podRef[j.pod] = true
+		podRef[j.uid] = true
 	}
 	for id, p := range w.pods {
-		if podLive[id] && p.node > 0 {
+		if podRef[id] && p.node > 0 {
 			c.node[p.node]++
 		}
 		if p.wl > 0 {
@@ -513,7 +543,7 @@ func (w *c16World) oracleRound(before, after []c16JobView) {
 	}
 	un := w.apiUnavailable() // pods do not change during a round
 	B, A, X := w.counts(before, c16Live, nil, un), w.counts(after, c16Live, nil, un), w.counts(after, c16Live, bypass, un)
-	M := w.counts(after, c16Live, missing, un) // only the global and per-namespace counts can contain such jobs
+	M := w.counts(after, c16Live, missing, un) // the global, per-namespace and (through a UID-only PodRef) per-node counts can contain such jobs
 	if w.mg > 0 && !w.skipped(5) && A.global > c16Max(w.mg, B.global)+X.global {
 		if A.global <= c16Max(w.mg, B.global)+X.global+M.global {
 			h.Fail("C16:arb-missing-pod-bypasses-limits", "live jobs %d > max(limit %d, before %d) + exempt %d: %d job(s) admitted whose pod does not exist", A.global, w.mg, B.global, X.global, M.global)
@@ -524,7 +554,11 @@ func (w *c16World) oracleRound(before, after []c16JobView) {
 	if w.mn > 0 && !w.skipped(3) {
 		for n, c := range A.node {
 			if c > c16Max(w.mn, B.node[n])+X.node[n] {
-				h.Fail("C16:arb-node-exceeded", "node %d: %d pods with live jobs > max(limit %d, before %d) + exempt %d", n, c, w.mn, B.node[n], X.node[n])
+				if c <= c16Max(w.mn, B.node[n])+X.node[n]+M.node[n] { // a job that names its pod by UID only is passed like a job without pod
+					h.Fail("C16:arb-missing-pod-bypasses-limits", "node %d: %d pods with live jobs > max(limit %d, before %d) + exempt %d: %d job(s) admitted whose pod cannot be resolved", n, c, w.mn, B.node[n], X.node[n], M.node[n])
+				} else {
+					h.Fail("C16:arb-node-exceeded", "node %d: %d pods with live jobs > max(limit %d, before %d) + exempt %d (+ %d unresolvable)", n, c, w.mn, B.node[n], X.node[n], M.node[n])
+				}
 			}
 		}
 	}
@@ -586,10 +620,11 @@ func (w *c16World) oracleRound(before, after []c16JobView) {
 }
 
 // hypothesis WF of theorem round_inv, evaluated on the API state: object names unique (the API guarantees it), a PodRef
-// resolves to a pod of its own namespace, and no pod has two open (pending / running) jobs
+// resolves to a pod of its own namespace, a PodRef does not carry the UID of one existing pod and the namespace/name of
+// another, and no pod has two open (pending / running) jobs referring to it by UID or by namespace/name
 func (w *c16World) wellFormed(v []c16JobView) bool {
 	seen := map[int]bool{}
-	open := map[int]bool{}
+	open := map[int]int{}
 	for _, j := range v {
 		if seen[j.id] {
 			return false
@@ -598,14 +633,26 @@ func (w *c16World) wellFormed(v []c16JobView) bool {
 		if j.pod == 0 {
 			continue
 		}
-		if p, ok := w.pods[j.pod]; ok && p.ns != j.ns {
+		p, nameOK := w.pods[j.pod]
+		if nameOK && p.ns != j.ns {
+			return false
+		}
+		_, uidOK := w.pods[j.uid]
+		if nameOK && uidOK && j.uid != j.pod {
 			return false
 		}
 		if j.phase <= 2 {
-			if open[j.pod] {
-				return false
+			if nameOK {
+				open[j.pod]++
 			}
-			open[j.pod] = true
+			if uidOK && j.uid != j.pod {
+				open[j.uid]++
+			}
+		}
+	}
+	for _, n := range open {
+		if n > 1 {
+			return false
 		}
 	}
 	return true
@@ -681,10 +728,37 @@ func (w *c16World) getPod(id int) *corev1.Pod {
 }
 
 // direct creation of a job object; kind 0 running, 1 pending+passed, 2 finished, 3 waiting
-func (w *c16World) createJob(r *vRand, id, pod, ns, kind int) {
+func (w *c16World) createJob(r *vRand, id, pod, ns, kind, shape int) {
 	ctx := context.TODO()
-	w.jobs[id] = &c16JobS{id: id, pod: pod, ns: ns}
-	j := w.mkJob(id, pod, ns)
+	js := &c16JobS{id: id, pod: pod, ns: ns, uid: pod}
+	if pod == 0 || w.pods[pod] == nil {
+		shape = c16RefFull
+	}
+	switch shape {
+	case c16RefNameOnly:
+		js.uid = 0
+	case c16RefUIDOnly:
+		js.pod, js.ns, js.nameless = 900+id, 0, true
+	case c16RefStaleUID:
+		js.uid = 800 + pod
+	case c16RefCross:
+		ids := []int{}
+		for o := range w.pods {
+			if o != pod {
+				ids = append(ids, o)
+			}
+		}
+		sort.Ints(ids)
+		if len(ids) > 0 {
+			js.uid = ids[r.Intn(len(ids))]
+		} else {
+			shape = c16RefFull
+		}
+	}
+	w.h.Tag(fmt.Sprintf("job:ref=%d", shape))
+	w.jobs[id] = js
+	pod, ns = js.pod, js.ns
+	j := w.mkJob(js)
 	phase, passed, waiting := 0, false, false
 	switch kind {
 	case 0:
@@ -713,7 +787,7 @@ func (w *c16World) createJob(r *vRand, id, pod, ns, kind int) {
 	if waiting {
 		w.a.AddPodMigrationJob(j)
 	}
-	w.h.Op("job %d %d %d %d %d %d %d", id, pod, ns, phase, vB(passed), vB(passed), vB(waiting))
+	w.h.Op("job %d %d %d %d %d %d %d %d", id, pod, ns, phase, vB(passed), vB(passed), vB(waiting), js.uid)
 }
 
 func c16ArbCase(h *vHarness, r *vRand, headroom bool) {
@@ -828,13 +902,28 @@ func c16ArbCase(h *vHarness, r *vRand, headroom bool) {
 	}
 	np := r.Range(5, 10)
 	nextJob := 1
+	// the pod already has a pending / running job: some such job refers to it by UID or by namespace/name
 	hasOpenJob := func(pod int) bool {
 		for _, j := range w.view() {
-			if j.pod == pod && j.phase <= 2 {
+			if j.pod != 0 && (j.pod == pod || j.uid == pod) && j.phase <= 2 {
 				return true
 			}
 		}
 		return false
+	}
+	pickShape := func() int {
+		switch k := r.Intn(20); {
+		case k < 10:
+			return c16RefFull
+		case k < 14:
+			return c16RefNameOnly
+		case k < 16:
+			return c16RefUIDOnly
+		case k < 19:
+			return c16RefStaleUID
+		default:
+			return c16RefCross
+		}
 	}
 	if headroom {
 		np = r.Range(4, 8)
@@ -849,12 +938,16 @@ func c16ArbCase(h *vHarness, r *vRand, headroom bool) {
 		}
 		// jobs: sometimes one already running on an unavailable replica (counts once), waiting jobs on the others
 		if r.Chance(1, 3) {
-			w.createJob(r, nextJob, 1, 1, r.Intn(2))
+			w.createJob(r, nextJob, 1, 1, r.Intn(2), pickShape()%c16RefCross)
 			nextJob++
 		}
 		for id := nun + 1; id <= np; id++ {
 			if r.Chance(2, 3) {
-				w.createJob(r, nextJob, id, 1, 3)
+				sh := c16RefFull
+				if r.Chance(1, 4) {
+					sh = []int{c16RefNameOnly, c16RefStaleUID}[r.Intn(2)]
+				}
+				w.createJob(r, nextJob, id, 1, 3, sh)
 				nextJob++
 			}
 		}
@@ -887,7 +980,7 @@ func c16ArbCase(h *vHarness, r *vRand, headroom bool) {
 				// hypothesis WF of round_inv false: model and implementation are still compared, the oracle is not applied
 				continue
 			}
-			w.createJob(r, nextJob, pod, ns, kind)
+			w.createJob(r, nextJob, pod, ns, kind, pickShape())
 			nextJob++
 		}
 	}
@@ -902,12 +995,45 @@ func c16ArbCase(h *vHarness, r *vRand, headroom bool) {
 	admittedAndWaiting := false
 	for s, steps := 0, r.Range(6, 14); s < steps; s++ {
 		switch k := r.Intn(20); {
+		case k < 1: // somebody else (kubectl, another controller) creates a job for a pod without one; its PodRef may be partial
+			ids := []int{}
+			for _, id := range podIDs() {
+				if !hasOpenJob(id) {
+					ids = append(ids, id)
+				}
+			}
+			if len(ids) == 0 {
+				continue
+			}
+			pod := ids[r.Intn(len(ids))]
+			sh := pickShape()
+			if sh == c16RefCross || sh == c16RefFull {
+				sh = c16RefNameOnly
+			}
+			kind := 3
+			if r.Chance(1, 3) {
+				kind = r.Intn(2)
+			}
+			w.createJob(r, nextJob, pod, w.pods[pod].ns, kind, sh)
+			nextJob++
+			h.Tag("op:external-job")
 		case k < 7: // a plugin wants to migrate a pod: Filter, then create the job and hand it to the arbitrator
 			ids := podIDs()
 			if len(ids) == 0 {
 				continue
 			}
 			pod := ids[r.Intn(len(ids))]
+			if r.Chance(1, 3) { // aim at the duplicate rule: a pod that already has an open job
+				busy := []int{}
+				for _, id := range ids {
+					if hasOpenJob(id) {
+						busy = append(busy, id)
+					}
+				}
+				if len(busy) > 0 {
+					pod = busy[r.Intn(len(busy))]
+				}
+			}
 			id := nextJob
 			nextJob++
 			h.Op("create %d %d", id, pod)
@@ -921,12 +1047,15 @@ func c16ArbCase(h *vHarness, r *vRand, headroom bool) {
 			}
 			h.Obs("filter %d", vB(ok))
 			h.Tag(fmt.Sprintf("filter=%d", vB(ok)))
+			if open {
+				h.Tag("filter:pod-has-open-job")
+			}
 			if ok && open {
 				h.Fail("C16:arb-second-job", "Filter accepted pod %d which already has a pending/running migration job", pod)
 			}
 			if ok {
-				w.jobs[id] = &c16JobS{id: id, pod: pod, ns: w.pods[pod].ns}
-				j := w.mkJob(id, pod, w.pods[pod].ns)
+				w.jobs[id] = &c16JobS{id: id, pod: pod, ns: w.pods[pod].ns, uid: pod}
+				j := w.mkJob(w.jobs[id])
 				if err := w.c.Create(ctx, j); err != nil {
 					panic(err)
 				}
